@@ -104,6 +104,22 @@ def _map(a, f, dtype=object):
     return f(a)
 
 
+class _GridProxy:
+    """np.mgrid/ogrid whose slice bounds may be symbolic integers (concretised by bounded case split)"""
+    def __init__(self, g):
+        self.g = g
+
+    def __getitem__(self, key):
+        def conc(v):
+            return v.__index__() if isinstance(v, SN) else v
+
+        def cs(k):
+            return slice(conc(k.start), conc(k.stop), conc(k.step)) if isinstance(k, slice) else k
+        if isinstance(key, tuple):
+            return self.g[tuple(cs(k) for k in key)]
+        return self.g[cs(key)]
+
+
 class _UfuncProxy:
     def __init__(self, uf, symop):
         self.uf = uf
@@ -139,6 +155,14 @@ class NPProxy:
             from fractions import Fraction
             return SN(180 * core.CTX.K, ({}, Fraction(180), 1))
         return real_np.pi
+
+    @property
+    def mgrid(self):
+        return _GridProxy(real_np.mgrid)
+
+    @property
+    def ogrid(self):
+        return _GridProxy(real_np.ogrid)
 
     # -- predicates
     def isfinite(self, a):
